@@ -18,22 +18,22 @@ type c06prog struct {
 	tl []string
 	tm map[string]string
 	// siblings of all kinds, with their declared defaults
-	sb  *bool
-	dsb bool
-	si  *int
-	dsi int
-	ss  *string
-	dss string
-	sf  *float64
-	dsf float64
-	sso *string
-	sio *int
-	sfo *float64
+	sb   *bool
+	dsb  bool
+	si   *int
+	dsi  int
+	ss   *string
+	dss  string
+	sf   *float64
+	dsf  float64
+	sso  *string
+	sio  *int
+	sfo  *float64
 	sinc *int
-	sl  *[]string
-	sil *[]int
-	sfl *[]float64
-	sm  map[string]string
+	sl   *[]string
+	sil  *[]int
+	sfl  *[]float64
+	sm   map[string]string
 }
 
 const (
@@ -219,4 +219,51 @@ func VerifC06_EnvCalled() {
 	vAssert("env/called-by-alias-name", opt.Called("x"))
 	vAssert("env/called-as", opt.CalledAs("name") == "VERIF_C06_ENV")
 	vReach("env")
+}
+
+// An alias that a command adds, spelled by a text that is only an
+// abbreviation at the root: resolved at the level it is given at.
+func VerifC06_AliasAtLevels() {
+	vNativeReset()
+	val := positional("val", "cmd")
+	opt := New()
+	verbose := opt.Bool("verbose", false)
+	cmd := opt.NewCommand("cmd", "")
+	version := cmd.String("version", "dv", cmd.Alias("ver"))
+	vPhase("run")
+	remaining, err := opt.Parse([]string{"--ver", "cmd", "--ver", val})
+	vObserve("err", err)
+	vObserve("remaining", remaining)
+	vAssert("levels/no-error", err == nil)
+	vAssert("levels/root-abbreviation", *verbose)
+	vAssert("levels/alias-value", *version == val)
+	vAssert("levels/remaining-empty", len(remaining) == 0)
+	vAssert("levels/called-as-full-name-at-root", opt.CalledAs("verbose") == "verbose")
+	vAssert("levels/alias-called", cmd.Called("ver") && cmd.Called("version"))
+	vAssert("levels/alias-called-as", cmd.CalledAs("version") == "ver")
+	vReach("levels")
+}
+
+// Called / CalledAs / Value / pointer agree on the object that declared the
+// option, also when the command finally selected does not inherit it (a
+// wrapper created with UnsetOptions, the help command).
+func VerifC06_CalledOnDeclaringObject() {
+	vNativeReset()
+	which := vInt("selected", 0, 2)
+	opt := New()
+	verbose := opt.Bool("verbose", false, opt.Alias("v"))
+	wrap := opt.NewCommand("wrap", "")
+	wrap.UnsetOptions().SetUnknownMode(Pass)
+	opt.NewCommand("plain", "")
+	opt.HelpCommand("help")
+	target := []string{"wrap", "plain", "help"}[which]
+	vPhase("run")
+	_, err := opt.Parse([]string{"-v", target})
+	vAssert("declaring/no-error", err == nil)
+	vAssert("declaring/pointer", *verbose)
+	vAssert("declaring/value", opt.Value("verbose").(bool))
+	vAssert("declaring/called", opt.Called("verbose"))
+	vAssert("declaring/called-by-alias", opt.Called("v"))
+	vAssert("declaring/called-as", opt.CalledAs("verbose") == "v")
+	vReach("declaring")
 }
